@@ -153,29 +153,32 @@ def groupByKeys (ks : List (Row → Val)) (X : List Row) : List KGroup := gbkLoo
 
 def crossLR (ls rs : List Row) : List Row := ls.flatMap (fun l => rs.map (l ++ ·))
 
-/-- the `loop { match (&left_group, &right_group) … }` of `MergeJoinExecutor`. `Vec<DataValue>`
-is compared with the derived lexicographic order (`rowCmp`). -/
-def mergeLoop (padLeft padRight : Bool) (nL nR : Nat) : List KGroup → List KGroup → List Row
-  | (lk, lrows) :: ls, (rk, rrows) :: rs =>
-    if lk == rk then crossLR lrows rrows ++ mergeLoop padLeft padRight nL nR ls rs
+/-- the `loop { match (&left_group, &right_group) … }` of `MergeJoinExecutor` (fuel = number of
+iterations). `Vec<DataValue>` is compared with the derived lexicographic order (`rowCmp`). -/
+def mergeLoop (padLeft padRight : Bool) (nL nR : Nat) : Nat → List KGroup → List KGroup → List Row
+  | 0, _, _ => []
+  | fuel + 1, (lk, lrows) :: ls, (rk, rrows) :: rs =>
+    if lk == rk then crossLR lrows rrows ++ mergeLoop padLeft padRight nL nR fuel ls rs
     else if rowCmp lk rk == .lt then
       (if padLeft then lrows.map (· ++ nulls nR) else []) ++
-        mergeLoop padLeft padRight nL nR ls ((rk, rrows) :: rs)
+        mergeLoop padLeft padRight nL nR fuel ls ((rk, rrows) :: rs)
     else if rowCmp lk rk == .gt then
       (if padRight then rrows.map (nulls nL ++ ·) else []) ++
-        mergeLoop padLeft padRight nL nR ((lk, lrows) :: ls) rs
+        mergeLoop padLeft padRight nL nR fuel ((lk, lrows) :: ls) rs
     else []
-  | (_, lrows) :: ls, [] =>
-    (if padLeft then lrows.map (· ++ nulls nR) else []) ++ mergeLoop padLeft padRight nL nR ls []
-  | [], (_, rrows) :: rs =>
-    (if padRight then rrows.map (nulls nL ++ ·) else []) ++ mergeLoop padLeft padRight nL nR [] rs
-  | [], [] => []
-termination_by ls rs => ls.length + rs.length
+  | fuel + 1, (_, lrows) :: ls, [] =>
+    (if padLeft then lrows.map (· ++ nulls nR) else []) ++ mergeLoop padLeft padRight nL nR fuel ls []
+  | fuel + 1, [], (_, rrows) :: rs =>
+    (if padRight then rrows.map (nulls nL ++ ·) else []) ++ mergeLoop padLeft padRight nL nR fuel [] rs
+  | _ + 1, [], [] => []
 
 def mergeJoin (t : JoinType) (lk rk : List (Row → Val)) (nL nR : Nat) (Ls Rs : List Chunk) : List Chunk :=
   let padRight := t == .rightOuter || t == .fullOuter
   let padLeft := t == .leftOuter || t == .fullOuter
-  emit (mergeLoop padLeft padRight nL nR (groupByKeys lk (flat Ls)) (groupByKeys rk (flat Rs)))
+  let lg := groupByKeys lk (flat Ls)
+  let rg := groupByKeys rk (flat Rs)
+  -- every iteration consumes a group: |lg| + |rg| + 1 iterations are enough
+  emit (mergeLoop padLeft padRight nL nR (lg.length + rg.length + 1) lg rg)
 
 /-! ## aggregation: states and the two accumulation paths -/
 
@@ -364,5 +367,13 @@ def projExec (fs : List (Row → Val)) (Xs : List Chunk) : List Chunk := Xs.map 
 /-- re-chunking of a stream at `n` rows per chunk (`n = 0`: a single chunk). -/
 def rechunk (n : Nat) (Xs : List Chunk) : List Chunk :=
   if n == 0 then [flat Xs] else builderRun n (flat Xs) []
+
+/-- The forced hypothesis of every hash / merge join theorem: on the rows at hand, structural
+equality of the key vectors (what the hash table uses) coincides with SQL equality of the keys
+(what the join condition means).  It fails exactly for NULL keys (equal structurally, UNKNOWN in
+SQL) and for keys of different integer widths (SQL-equal, structurally different). -/
+def KeysComparable (lk rk : List (Row → Val)) (L R : List Row) : Prop :=
+  ∀ l ∈ L, ∀ r ∈ R, (keyOf lk l == keyOf rk r) = holds (keysEq3 (keyOf lk l) (keyOf rk r))
+
 
 end RlModel
